@@ -9,6 +9,11 @@ HEAD = r'''//@unit C04.simd
 // Abstractions: R7 wide::i64x4 is an external type with lane-wise contracts (splat, new, cmp_lt / cmp_gt / cmp_eq
 // return all-ones (-1) / 0 per lane — the `wide` documentation; `.into()` -> `.to_array()`, the same conversion) ·
 // R10s `result: &mut [u64]` rebound to `&mut Vec<u64>` (only indexed and measured) · R18c `v[i] |= x` -> `v.set(i, v[i] | x)` ·
+// The rest of the strategy is under contract too: RelationalEngine::{apply_null_mask, apply_alive_mask} (relational_engine/src/lib.rs)
+// and simd::selected_indices (`trailing_zeros` + `w &= w - 1` loop: the list is exactly the set bits, ascending; vstd's
+// trailing_zeros axioms + one bit-vector lemma), and `theorem_columnar_rows` composes the four contracts: the returned row
+// list is exactly the rows that satisfy the comparison, are not NULL in the filtered column and are alive.
+// R2m `for (w, y) in X.iter_mut().zip(Y)` / `for (i, w) in X.iter_mut().enumerate()` -> index loop with `X.set(..)` writes.
 // i64::saturating_add / saturating_sub carry their std meaning (assume_specification; unused by
 // the current text, present so that an arithmetic rewrite of a comparison is decided rather than undecided).
 //@allow external_body
@@ -44,10 +49,10 @@ pub assume_specification [<i64>::saturating_add] (a: i64, b: i64) -> (r: i64) en
 pub assume_specification [<i64>::saturating_sub] (a: i64, b: i64) -> (r: i64) ensures r == clamp64(a - b);
 
 /// bit k of a bitmap of 64-bit words
-pub open spec fn bit(r: Seq<u64>, k: int) -> bool { (r[k / 64] >> ((k % 64) as u64)) & 1 == 1 }
+pub open spec fn bit_of(r: Seq<u64>, k: int) -> bool { (r[k / 64] >> ((k % 64) as u64)) & 1 == 1 }
 /// rows 0..n have been decided: bit k == it was set before, or row k (< n) is selected
 pub open spec fn processed(o: Seq<u64>, c: Seq<u64>, sel: Seq<bool>, n: int) -> bool {
-    c.len() == o.len() && forall|k: int| 0 <= k < c.len() * 64 ==> #[trigger] bit(c, k) == (bit(o, k) || (k < n && sel[k]))
+    c.len() == o.len() && forall|k: int| 0 <= k < c.len() * 64 ==> #[trigger] bit_of(c, k) == (bit_of(o, k) || (k < n && sel[k]))
 }
 proof fn lemma_or_bit(w: u64, s: u64, t: u64)
     requires s < 64, t < 64,
@@ -63,8 +68,8 @@ proof fn lemma_step(o: Seq<u64>, c0: Seq<u64>, c1: Seq<u64>, sel: Seq<bool>, n: 
 {
     if processed(o, c0, sel, n) && 0 <= n < sel.len() && n < c0.len() * 64 && sel[n] == take
         && (take ==> c1 == c0.update(n / 64, c0[n / 64] | (1u64 << ((n % 64) as usize)))) && (!take ==> c1 == c0) {
-        assert forall|k: int| 0 <= k < c1.len() * 64 implies #[trigger] bit(c1, k) == (bit(o, k) || (k < n + 1 && sel[k])) by {
-            assert(bit(c0, k) == (bit(o, k) || (k < n && sel[k])));
+        assert forall|k: int| 0 <= k < c1.len() * 64 implies #[trigger] bit_of(c1, k) == (bit_of(o, k) || (k < n + 1 && sel[k])) by {
+            assert(bit_of(c0, k) == (bit_of(o, k) || (k < n && sel[k])));
             if take {
                 if k / 64 == n / 64 {
                     lemma_or_bit(c0[n / 64], (n % 64) as u64, (k % 64) as u64);
@@ -108,6 +113,182 @@ processed(old(result)@, final(result)@, Seq::new(values@.len(), |k: int| values@
             proof {{ lemma_step(r_in, r0, result@, sel, i as int, sel[i as int]); }}
 //@endfn
 '''
+EXTRA_HEAD = r'''
+// ---- the rest of the columnar strategy: null / alive masks and the bitmap -> row index list
+pub open spec fn wbit(w: u64, t: int) -> bool { (w >> (t as u64)) & 1 == 1 }
+proof fn lemma_clear_lowest(w: u64, b: u64, t: u64)
+    requires w != 0, b < 64, t < 64, (w >> b) & 1 == 1, b > 0 ==> (w << ((64 - b) as u64)) == 0,
+    ensures ((w & ((w - 1) as u64)) >> t) & 1 == (if t == b { 0u64 } else { (w >> t) & 1 }),
+{
+    assert(((w & ((w - 1) as u64)) >> t) & 1 == (if t == b { 0u64 } else { (w >> t) & 1 })) by(bit_vector)
+        requires w != 0, b < 64, t < 64, (w >> b) & 1 == 1, b > 0 ==> (w << ((64 - b) as u64)) == 0;
+}
+/// `ix` lists exactly the positions below `below` of the set bits of `bm`, in ascending order
+pub open spec fn lists_set_bits(ix: Seq<usize>, bm: Seq<u64>, below: int) -> bool {
+    &&& forall|a: int, b: int| 0 <= a < b < ix.len() ==> ix[a] < ix[b]
+    &&& forall|a: int| 0 <= a < ix.len() ==> (#[trigger] ix[a]) < below && bit_of(bm, ix[a] as int)
+    &&& forall|k: int| 0 <= k < below && k < bm.len() * 64 && bit_of(bm, k) ==> #[trigger] ix.contains(k as usize)
+}
+/// NULL rows are added to (`nulls_match`: the `!=` filter) or removed from the selection; rows beyond the mask are untouched
+pub open spec fn null_masked(o: Seq<u64>, f: Seq<u64>, nulls: Seq<u64>, nulls_match: bool) -> bool {
+    f.len() == o.len() && (forall|k: int| 0 <= k < o.len() * 64 ==> #[trigger] bit_of(f, k) ==
+        (if k < nulls.len() * 64 { if nulls_match { bit_of(o, k) || bit_of(nulls, k) } else { bit_of(o, k) && !bit_of(nulls, k) } } else { bit_of(o, k) }))
+}
+/// only rows that are alive stay selected; rows beyond the alive bitmap are dropped
+pub open spec fn alive_masked(o: Seq<u64>, f: Seq<u64>, alive: Seq<u64>) -> bool {
+    f.len() == o.len() && (forall|k: int| 0 <= k < o.len() * 64 ==> #[trigger] bit_of(f, k) == (k < alive.len() * 64 && bit_of(o, k) && bit_of(alive, k)))
+}
+/// The columnar strategy for an integer comparison (select_columnar_impl: zeroed bitmap -> filter_*_i64 -> apply_null_mask(false)
+/// -> apply_alive_mask -> selected_indices), composed from the four contracts: the row list is exactly, in ascending order,
+/// the rows that satisfy the comparison, are not NULL in the filtered column and are alive.
+pub proof fn theorem_columnar_rows(zero: Seq<u64>, r1: Seq<u64>, r2: Seq<u64>, r3: Seq<u64>, nulls: Seq<u64>, alive: Seq<u64>, sel: Seq<bool>, ix: Seq<usize>)
+    requires
+        sel.len() <= zero.len() * 64, zero.len() * 64 <= usize::MAX, forall|k: int| 0 <= k < zero.len() * 64 ==> !#[trigger] bit_of(zero, k),
+        processed(zero, r1, sel, sel.len() as int),
+        nulls.len() == r1.len(), alive.len() == r1.len(),
+        null_masked(r1, r2, nulls, false), alive_masked(r2, r3, alive),
+        lists_set_bits(ix, r3, (r3.len() * 64) as int),
+    ensures
+        forall|a: int, b: int| 0 <= a < b < ix.len() ==> ix[a] < ix[b],
+        forall|k: int| 0 <= k < r3.len() * 64 ==> (#[trigger] ix.contains(k as usize) <==> (k < sel.len() && sel[k] && !bit_of(nulls, k) && bit_of(alive, k))),
+{
+    assert forall|k: int| 0 <= k < r3.len() * 64 implies (#[trigger] ix.contains(k as usize) <==> (k < sel.len() && sel[k] && !bit_of(nulls, k) && bit_of(alive, k))) by {
+        assert(bit_of(r1, k) == (bit_of(zero, k) || (k < sel.len() && sel[k])));
+        assert(bit_of(r2, k) == (bit_of(r1, k) && !bit_of(nulls, k)));
+        assert(bit_of(r3, k) == (bit_of(r2, k) && bit_of(alive, k)));
+        if ix.contains(k as usize) {
+            let a = choose|a: int| 0 <= a < ix.len() && ix[a] == k as usize;
+            assert(bit_of(r3, ix[a] as int));
+        }
+    }
+}
+/// word-level meaning of the two masks, bit by bit
+proof fn lemma_mask_bits(w: u64, n: u64, t: u64)
+    requires t < 64,
+    ensures (((w | n) >> t) & 1 == 1) <==> (((w >> t) & 1 == 1) || ((n >> t) & 1 == 1)),
+        (((w & !n) >> t) & 1 == 1) <==> (((w >> t) & 1 == 1) && !((n >> t) & 1 == 1)),
+        (((w & n) >> t) & 1 == 1) <==> (((w >> t) & 1 == 1) && ((n >> t) & 1 == 1)),
+        ((0u64 >> t) & 1 == 1) == false,
+{
+    assert((((w | n) >> t) & 1 == 1) <==> (((w >> t) & 1 == 1) || ((n >> t) & 1 == 1))) by(bit_vector) requires t < 64;
+    assert((((w & !n) >> t) & 1 == 1) <==> (((w >> t) & 1 == 1) && !((n >> t) & 1 == 1))) by(bit_vector) requires t < 64;
+    assert((((w & n) >> t) & 1 == 1) <==> (((w >> t) & 1 == 1) && ((n >> t) & 1 == 1))) by(bit_vector) requires t < 64;
+    assert(((0u64 >> t) & 1 == 1) == false) by(bit_vector) requires t < 64;
+}
+'''
+EXTRA_FNS = r'''
+//@fn file=relational_engine/src/lib.rs name=apply_null_mask impl=RelationalEngine rules=R2,R13
+//@sigsubst rule=R10s from="bitmap: &mut [u64]" to="bitmap: &mut Vec<u64>"
+//@ensures [C04.columnar.null_mask_exact]
+null_masked(old(bitmap)@, final(bitmap)@, null_words@, nulls_match)
+//@top
+        let ghost b_in = bitmap@;
+//@loop 1 index=wi
+            invariant wi <= bitmap@.len(), wi <= null_words@.len(), bitmap@.len() == b_in.len(),
+                forall|j: int| wi <= j < bitmap@.len() ==> bitmap@[j] == b_in[j],
+                forall|j: int| 0 <= j < wi ==> #[trigger] bitmap@[j] == (if nulls_match { b_in[j] | null_words@[j] } else { b_in[j] & !null_words@[j] }),
+            decreases bitmap@.len() - wi
+//@end
+        proof {
+            assert forall|k: int| 0 <= k < b_in.len() * 64 implies #[trigger] bit_of(bitmap@, k) ==
+                (if k < null_words@.len() * 64 { if nulls_match { bit_of(b_in, k) || bit_of(null_words@, k) } else { bit_of(b_in, k) && !bit_of(null_words@, k) } } else { bit_of(b_in, k) }) by {
+                if k / 64 < null_words@.len() { lemma_mask_bits(b_in[k / 64], null_words@[k / 64], (k % 64) as u64); }
+            }
+        }
+//@endfn
+
+//@fn file=relational_engine/src/lib.rs name=apply_alive_mask impl=RelationalEngine rules=R2,R13
+//@sigsubst rule=R10s from="bitmap: &mut [u64]" to="bitmap: &mut Vec<u64>"
+//@ensures [C04.columnar.alive_mask_exact]
+alive_masked(old(bitmap)@, final(bitmap)@, alive_words@)
+//@top
+        let ghost b_in = bitmap@;
+//@loop 1 index=wi
+            invariant wi <= bitmap@.len(), bitmap@.len() == b_in.len(),
+                forall|j: int| wi <= j < bitmap@.len() ==> bitmap@[j] == b_in[j],
+                forall|j: int| 0 <= j < wi ==> #[trigger] bitmap@[j] == (if j < alive_words@.len() { b_in[j] & alive_words@[j] } else { 0u64 }),
+            decreases bitmap@.len() - wi
+//@end
+        proof {
+            assert forall|k: int| 0 <= k < b_in.len() * 64 implies #[trigger] bit_of(bitmap@, k) ==
+                (k < alive_words@.len() * 64 && bit_of(b_in, k) && bit_of(alive_words@, k)) by {
+                if k / 64 < alive_words@.len() { lemma_mask_bits(b_in[k / 64], alive_words@[k / 64], (k % 64) as u64); }
+                else { lemma_mask_bits(0, 0, (k % 64) as u64); }
+            }
+        }
+//@endfn
+
+//@fn file=relational_engine/src/simd.rs name=selected_indices ret=res rules=R2,R13
+//@subst rule=R7 from="let mut indices = Vec::with_capacity(max_count.min(1024));" to="let mut indices: Vec<usize> = Vec::new();"
+//@requires [selected_indices.scope.positions_fit_usize]
+bitmap@.len() * 64 <= usize::MAX
+//@ensures [C04.columnar.selected_indices_are_exactly_the_set_bits]
+lists_set_bits(res@, bitmap@, (bitmap@.len() * 64) as int)
+//@top
+    broadcast use vstd::std_specs::bits::axiom_u64_trailing_zeros;
+//@loop 1 index=wi
+        invariant wi <= bitmap@.len(), bitmap@.len() * 64 <= usize::MAX,
+            lists_set_bits(indices@, bitmap@, (wi * 64) as int),
+        decreases bitmap@.len() - wi
+//@loop 2 before
+        let ghost mut done: int = 0;
+//@loop 2
+            invariant word == bitmap@[word_idx as int], base == word_idx * 64, word_idx < bitmap@.len(), bitmap@.len() * 64 <= usize::MAX,
+                wi == word_idx + 1, 0 <= done <= 64,
+                forall|t: int| 0 <= t < 64 ==> #[trigger] wbit(w, t) == (wbit(word, t) && t >= done),
+                lists_set_bits(indices@, bitmap@, base as int + done),
+            decreases 64 - done, w
+//@loop 2 body_top
+            let ghost w0 = w; let ghost done0 = done; let ghost ix0 = indices@;
+//@loop 2 body_bottom
+            proof {
+                if bit < 64 && w == (w0 & ((w0 - 1) as u64)) && indices@ == ix0.push((base + bit) as usize) && wbit(w0, bit as int) && (forall|t: int| 0 <= t < bit ==> !wbit(w0, t)) {
+                    assert(bit as int >= done0);
+                    done = bit + 1;
+                    assert forall|t: int| 0 <= t < 64 implies #[trigger] wbit(w, t) == (wbit(word, t) && t >= done) by {
+                        lemma_clear_lowest(w0, bit as u64, t as u64);
+                        assert(wbit(w0, t) == (wbit(word, t) && t >= done0));
+                        if t < bit as int { assert(!wbit(w0, t)); }
+                    }
+                    let nb = base as int + done;
+                    assert(((base + bit) as int) / 64 == word_idx as int && ((base + bit) as int) % 64 == bit as int);
+                    assert forall|a: int, b: int| 0 <= a < b < indices@.len() implies indices@[a] < indices@[b] by {
+                        if b == ix0.len() { assert(ix0[a] < base as int + done0); }
+                    }
+                    assert forall|a: int| 0 <= a < indices@.len() implies (#[trigger] indices@[a]) < nb && bit_of(bitmap@, indices@[a] as int) by {
+                        if a < ix0.len() { assert(ix0[a] < base as int + done0 && bit_of(bitmap@, ix0[a] as int)); }
+                    }
+                    assert forall|k: int| 0 <= k < nb && k < bitmap@.len() * 64 && bit_of(bitmap@, k) implies #[trigger] indices@.contains(k as usize) by {
+                        if k < base as int + done0 {
+                            assert(ix0.contains(k as usize));
+                            let a = choose|a: int| 0 <= a < ix0.len() && ix0[a] == k as usize;
+                            assert(indices@[a] == k as usize);
+                        } else if k == (base + bit) as int {
+                            assert(indices@[indices@.len() - 1] == k as usize);
+                        } else {
+                            assert(k / 64 == word_idx as int);
+                            assert(!wbit(w0, k % 64));
+                            assert(wbit(w0, k % 64) == (wbit(word, k % 64) && k % 64 >= done0));
+                        }
+                    }
+                }
+            }
+//@loop 2 after
+        proof {
+            assert forall|t: int| 0 <= t < 64 implies !wbit(0u64, t) by { lemma_mask_bits(0, 0, t as u64); }
+            let nb = (word_idx as int + 1) * 64;
+            assert forall|k: int| 0 <= k < nb && k < bitmap@.len() * 64 && bit_of(bitmap@, k) implies #[trigger] indices@.contains(k as usize) by {
+                if k >= base as int + done {
+                    assert(k / 64 == word_idx as int);
+                    assert(wbit(w, k % 64) == (wbit(word, k % 64) && k % 64 >= done));
+                }
+            }
+            assert forall|a: int| 0 <= a < indices@.len() implies (#[trigger] indices@[a]) < nb && bit_of(bitmap@, indices@[a] as int) by {
+                assert(indices@[a] < base as int + done);
+            }
+        }
+//@endfn
+'''
 fns = [
  ('lt', '<', 'threshold', 'threshold_vec', 1, 'mask_arr@[jj] != 0', 'm != 0'),
  ('le', '<=', 'threshold', 'threshold_vec', 2, 'lt@[jj] != 0 || eq@[jj] != 0', 'lt@[j as int] != 0 || eq@[j as int] != 0'),
@@ -117,10 +298,10 @@ fns = [
  ('ne', '!=', 'target', 'target_vec', 1, 'eq@[jj] == 0', 'eq_val == 0'),
 ]
 import sys
-out = HEAD
+out = HEAD + EXTRA_HEAD
 for f in fns:
     if f[4] is None: continue
     op, sym, thr, tv, ninto, lanecond, takej = f
     out += FN.format(op=op, sym=sym, thr=thr, tv=tv, ninto=ninto, lanecond=lanecond, takej=takej)
-out += "}\nfn main(){}\n"
+out += "pub struct RelationalEngine { pub _p: u8 }\nimpl RelationalEngine {\n" + EXTRA_FNS.split("//@fn file=relational_engine/src/simd.rs name=selected_indices")[0] + "}\n" + "//@fn file=relational_engine/src/simd.rs name=selected_indices" + EXTRA_FNS.split("//@fn file=relational_engine/src/simd.rs name=selected_indices")[1] + "}\nfn main(){}\n"
 open('/verif/units/C04_simd.vu','w').write(out)
